@@ -120,7 +120,47 @@ def expected_substr(I, st, s, start, count):
     return (off, ln)
 
 
-def judge_slice(run, rule, subject, I, outs, L, ret, entry, argv, oracle, f, scen):
+def substr_cases(I, st, s, start, count):
+    """The clamp formula as an explicit case split, for paths whose own conditions do not decide it: a list of
+    (terms assumed >= 0, (offset, length))."""
+    out = []
+    for auto in (True, False):
+        pre = [count - SIZE_MAX] if auto else [Lin.const(SIZE_MAX - 1) - count]
+        ceff = s if auto else count
+        starts = [([-start - 1, start + s], start + s), ([-start - 1, -start - s - 1], ZERO), ([start, s - start], start)]
+        out.append((pre + [start, start - s - 1], (None, ZERO)))
+        for (cond, off) in starts:
+            room = s - off
+            out.append((pre + cond + [room - ceff], (off, ceff)))
+            out.append((pre + cond + [ceff - room - 1], (off, room)))
+    return out
+
+
+def min_cases(I, st, s, n, right):
+    return [([s - n], ((s - n) if right else ZERO, n)), ([n - s - 1], (ZERO, s))]
+
+
+def compare_slice(st, res, exp, problems, und):
+    eoff, elen = exp
+    rl, roff, kind = res
+    r = st.is_eq0(rl - elen)
+    if r is not True:
+        env = st.find_model([rl - elen], lambda v: v[0] != 0)
+        if env is not None or r is False:
+            problems.append('result has %r bytes, the clamp formula gives %r%s' % (rl, elen, '; witness ' + own.fmt_env(env) if env else ''))
+        else:
+            und.append('result length %r vs %r not decided' % (rl, elen))
+    elif kind == 'copy' and eoff is not None and st.is_eq0(elen) is not True:
+        r2 = st.is_eq0(roff - eoff)
+        if r2 is not True:
+            env = st.find_model([roff - eoff], lambda v: v[0] != 0)
+            if r2 is False or env is not None:
+                problems.append('result starts at offset %r, the clamp formula gives %r%s' % (roff, eoff, '; witness ' + own.fmt_env(env) if env else ''))
+            else:
+                und.append('result offset %r vs %r not decided' % (roff, eoff))
+
+
+def judge_slice(run, rule, subject, I, outs, L, ret, entry, argv, oracle, f, scen, cases=None):
     n = 0
     for o in outs:
         if o.kind in ('backedge', 'unreachable'):
@@ -162,8 +202,19 @@ def judge_slice(run, rule, subject, I, outs, L, ret, entry, argv, oracle, f, sce
             exp = oracle(I, st, s, argv)
             if res is None or res[2] == 'unknown':
                 und.append('result object not tracked')
-            elif exp is None:
+            elif exp is None and cases is None:
                 und.append('path does not decide the clamp case')
+            elif exp is None:
+                # the path's own conditions do not single out a case of the clamp formula (the code splits its inputs differently):
+                # the path is refined by each case in turn; a mismatch counts only with a model of path + case (a real input)
+                for (conds, exp2) in cases(I, st, s, argv):
+                    s3 = st.clone()
+                    if not all(s3.assume_ge0(c) for c in conds):
+                        continue
+                    p3, u3 = [], []
+                    compare_slice(s3, res, exp2, p3, u3)
+                    problems.extend(p for p in p3 if 'witness' in p)
+                    und.extend(u3 + ['%s (no witness)' % p for p in p3 if 'witness' not in p])
             else:
                 eoff, elen = exp
                 rl, roff, kind = res
@@ -204,13 +255,16 @@ def slicing(run, m, F, E, L):
     n = 0
     specs = [
         ('ST::string::substr(long, unsigned long) const', 'R08.1',
-         lambda I, st, s, a: expected_substr(I, st, s, I.as_s(st, a[0]), I.as_u(st, a[1]))),
+         lambda I, st, s, a: expected_substr(I, st, s, I.as_s(st, a[0]), I.as_u(st, a[1])),
+         lambda I, st, s, a: substr_cases(I, st, s, I.as_s(st, a[0]), I.as_u(st, a[1]))),
         ('ST::string::left(unsigned long) const', 'R08.5',
-         lambda I, st, s, a: (lambda mn: None if mn is None else (ZERO, mn))(umin(st, I.as_u(st, a[0]), s))),
+         lambda I, st, s, a: (lambda mn: None if mn is None else (ZERO, mn))(umin(st, I.as_u(st, a[0]), s)),
+         lambda I, st, s, a: min_cases(I, st, s, I.as_u(st, a[0]), False)),
         ('ST::string::right(unsigned long) const', 'R08.5',
-         lambda I, st, s, a: (lambda mn: None if mn is None else (s - mn, mn))(umin(st, I.as_u(st, a[0]), s))),
+         lambda I, st, s, a: (lambda mn: None if mn is None else (s - mn, mn))(umin(st, I.as_u(st, a[0]), s)),
+         lambda I, st, s, a: min_cases(I, st, s, I.as_u(st, a[0]), True)),
     ]
-    for dem, rule, oracle in specs:
+    for dem, rule, oracle, cases in specs:
         f = find(m, F, dem)
         run.need(f is not None, '%s not found' % dem)
         for cls in ('small', 'large'):
@@ -223,7 +277,7 @@ def slicing(run, m, F, E, L):
                 signed = (dem.startswith('ST::string::substr') and k == 0)
                 argv.append(I.fresh_int(st, 64, nm, signed=signed))
             outs = I.run(I.start(f, [PtrV(ret), PtrV(this)] + argv, st))
-            n += judge_slice(run, rule, short(f.dem), I, outs, L, ret, entry, argv, oracle, f, 'this=' + cls)
+            n += judge_slice(run, rule, short(f.dem), I, outs, L, ret, entry, argv, oracle, f, 'this=' + cls, cases=cases)
     return n
 
 
